@@ -239,7 +239,10 @@ ERRCELLS = {'F1': 1, 'F2': Err('#DIV/0!'), 'F3': 0, 'G1': Err('#N/A'),
             'G2': 0, 'G3': True}
 ERRFORM = {'#DIV/0!': '=1/0', '#N/A': '=NA()'}
 CELLS.update(ERRCELLS)
-RANGES.extend(['F1:F3', 'F2:F3', 'G1:G2', 'G2:G3', 'F3:G3', 'G1:G3'])
+RANGES.extend(['F1:F3', 'F2:F3', 'G1:G2', 'G2:G3', 'F3:G3', 'G1:G3',
+               # two-dimensional, with errors: elements count in ROW-major
+               # order (F1, G1, F2, G2, ...)
+               'F1:G2', 'F2:G3', 'F1:G3', 'E1:G2', 'D1:G3'])
 
 
 class Crash(Exception):
